@@ -406,3 +406,129 @@ Proof.
     destruct (negb (String.prefix "bu" h)); [discriminate|].
     destruct (atoi (drop_str 2 h)); discriminate.
 Qed.
+
+(** * What a successful parse establishes *)
+
+(** Invariant of the loop: as long as no error is recorded, the pointers that the handlers
+    dereference without a check (TimeShiftBufferDepthS, StartNr) are not nil. *)
+Definition ptr_inv (c : cfg) (e : sc) : Prop :=
+  e = None -> c_tsbd c <> None /\ c_startNr c <> None.
+
+Lemma sc_atoi_ptr_none_ok e key val p : sc_atoi_ptr e key val = (p, None) -> p <> None.
+Proof.
+  unfold sc_atoi_ptr. destruct e; [discriminate|]. destruct (atoi val); intro H; inversion H; discriminate.
+Qed.
+
+Lemma apply_key_ptr_inv fx u key val now c e c' e' :
+  ptr_inv c e -> apply_key fx u key val now c e = KCont c' e' -> ptr_inv c' e'.
+Proof.
+  intros I A E'. subst e'.
+  assert (E0 : e = None).
+  { destruct e as [m|]; [|reflexivity]. apply apply_key_keeps_error in A. destruct A; discriminate. }
+  specialize (I E0). destruct I as [I1 I2].
+  destruct u; cbn [apply_key] in A; unfold drop_ptr in A;
+    try (repeat match type of A with
+                | context [let '(_, _) := ?x in _] => destruct x eqn:?
+                end;
+         inversion A; subst; cbn; auto; fail).
+  - (* stoprel *)
+    destruct (sc_atoi_ptr e key val) as [p e1]. destruct p; [|destruct (fx_stoprel fx); discriminate].
+    inversion A; subst; cbn; auto.
+  - (* tsbd *)
+    destruct (sc_atoi_ptr e key val) as [p e1] eqn:S. inversion A; subst. cbn. split; [|auto].
+    eapply sc_atoi_ptr_none_ok; eauto.
+  - (* snr *)
+    destruct (sc_atoi_ptr e key val) as [p e1] eqn:S. inversion A; subst. cbn. split; [auto|].
+    eapply sc_atoi_ptr_none_ok; eauto.
+  - (* patch *)
+    destruct (sc_atoi e key val) as [v e1]. inversion A; subst. destruct (0 <? v); cbn; auto.
+  - (* annexI *)
+    destruct (sc_parse_query fx e val) as [[q e1]| |]; inversion A; subst; cbn; auto.
+Qed.
+
+Lemma cfg_loop_ptr_inv fx now parts : forall i c e c' e' idx,
+  ptr_inv c e -> cfg_loop fx parts i now c e = Ok (c', e', idx) -> ptr_inv c' e'.
+Proof.
+  induction parts as [|p rest IH]; intros i c e c' e' idx I H; cbn [cfg_loop] in H.
+  - inversion H; subst; auto.
+  - destruct (i <? 2); [eapply IH; eauto|].
+    destruct (cut "_"%char p) as [[key val]|]; [|inversion H; subst; auto].
+    destruct (apply_key fx (classify key) key val now c e) eqn:A; try discriminate.
+    + eapply IH; [|eauto]. eapply apply_key_ptr_inv; eauto.
+    + inversion H; subst; auto.
+Qed.
+
+Lemma verify_and_fill_keeps fx c now c1 :
+  verify_and_fill fx c now = Ok c1 ->
+  c_tsbd c1 = c_tsbd c /\ c_startNr c1 = c_startNr c /\ c_pph c1 = c_pph c /\
+  c_subsDurMS c1 = c_subsDurMS c /\ c_traffic c1 = c_traffic c /\ c_codes c1 = c_codes c.
+Proof.
+  unfold verify_and_fill.
+  repeat match goal with |- context [if ?b then _ else _] => destruct b end;
+    try discriminate; intro H; inversion H; subst; cbn; auto 10.
+Qed.
+
+(** The parser establishes the guards of the repairs it contains; TimeShiftBufferDepthS and
+    StartNr are never nil in a configuration it returns, on any tree. *)
+Theorem parser_establishes fx path now c :
+  process_url_cfg fx path now = Ok c ->
+  c_tsbd c <> None /\ c_startNr c <> None /\
+  (fx_periods fx = true -> match c_pph c with Some n => 1 <= n <= 3600 | None => True end) /\
+  (fx_subsdur fx = true -> 0 < c_subsDurMS c) /\
+  (fx_snr fx = true -> match c_startNr c with Some n => n <= maxu32 | None => True end) /\
+  0 <= now.
+Proof.
+  unfold process_url_cfg.
+  destruct (cfg_loop fx _ 0 now _ None) as [[[c0 e] idx]| |] eqn:L; cbn [bind]; try discriminate.
+  destruct e; [discriminate|]. destruct (idx =? -1); [discriminate|].
+  destruct (verify_and_fill fx c0 now) as [c1| |] eqn:V; cbn [bind]; try discriminate.
+  intro H; inversion H; subst; clear H.
+  assert (I : ptr_inv c0 None).
+  { eapply cfg_loop_ptr_inv; [|exact L]. intros _. cbn. split; discriminate. }
+  destruct (I eq_refl) as [I1 I2].
+  pose proof (verify_and_fill_keeps _ _ _ _ V) as (K1 & K2 & K3 & K4 & _).
+  cbn. rewrite K1, K2.
+  split; [auto|]. split; [auto|].
+  unfold verify_and_fill in V.
+  destruct (now <? 0) eqn:N; [discriminate|].
+  destruct (fx_snr fx && _) eqn:G0; [discriminate|].
+  destruct (c_segTimelineNr c0 && c_segTimeline c0); [discriminate|].
+  destruct (fx_subsdur fx && (c_subsDurMS c0 <=? 0)) eqn:G1; [discriminate|].
+  destruct (_ || _); [discriminate|].
+  destruct (match c_mup c0 with Some m => m <=? 0 | None => false end); [discriminate|].
+  match type of V with context [if ?b then set_ltgt _ _ else _] => destruct b end;
+  cbn [c_tsbd c_pph c_contMulti c_scte35 set_ltgt] in V;
+  (match type of V with context [if ?b then Err "timeShiftBufferDepth" else _] => destruct b end; [discriminate|]);
+  (match type of V with context [if ?b then Err "periods per hour must be in the range 1-3600" else _] => destruct b eqn:G2 end; [discriminate|]);
+  rewrite K3, K4;
+  (repeat split;
+   [ intro F; rewrite F in G2; cbn in G2; destruct (c_pph c0); [lia|exact Logic.I]
+   | intro F; rewrite F in G1; cbn in G1; lia
+   | intro F; rewrite F in G0; cbn in G0; destruct (c_startNr c0); [lia|exact Logic.I]
+   | lia ]).
+Qed.
+
+(** * Requests other than GET /livesim2: total under their guards *)
+Definition G_other (fx : fixes) (e : env) (r : request) : bool :=
+  match r with
+  | RLive _ _ _ => false
+  | RLicense _ _ kids => fx_kid fx || kids_ok kids
+  | RUrlgenCreate a b c => fx_urlgen_create fx || (int_or_empty a && int_or_empty b && int_or_empty c)
+  | RUrlgenDrms _ => fx_urlgen_drms fx || e_drm e
+  end.
+
+Theorem other_requests_total fx e r : G_other fx e r = true -> is_bad (handler_model fx e r) = false.
+Proof.
+  destruct r; cbn [G_other handler_model]; intro H; [discriminate| | |].
+  - apply license_handler_safe; auto.
+  - apply urlgen_create_safe; auto.
+  - apply urlgen_drms_safe; auto.
+Qed.
+
+(** With the three repairs recorded, no licence or urlgen request at all can panic. *)
+Corollary other_requests_total_fixed fx e r :
+  fx_kid fx = true -> fx_urlgen_create fx = true -> fx_urlgen_drms fx = true ->
+  match r with RLive _ _ _ => True | _ => is_bad (handler_model fx e r) = false end.
+Proof.
+  intros F1 F2 F3. destruct r; [exact I| | |]; apply other_requests_total; cbn; rewrite ?F1, ?F2, ?F3; reflexivity.
+Qed.
